@@ -978,16 +978,26 @@ fn gen_universe(rng: &mut Rng, m: usize) -> usize {
 // dense / sparse decision of the DArray index built over it.  The block is the last (partial) one or is followed
 // by dense elements; with `distinct` the values are strictly increasing (positions of set bits).  Returns the low
 // width the tight universe `last + 1` yields, the values and the indices worth probing.
-fn gen_ef_edge(rng: &mut Rng, distinct: bool, out: &mut Out) -> Option<(usize, Vec<usize>, Vec<usize>)> {
+fn gen_ef_edge(rng: &mut Rng, distinct: bool, out: &mut Out, sid: u64) -> Option<(usize, Vec<usize>, Vec<usize>)> {
     let l: usize = if distinct { rng.pick(&[1usize, 2, 3]) } else { rng.pick(&[0usize, 0, 1, 3]) };
     // prefix slope in value space (per element): num/den
     let (num, den): (usize, usize) = if distinct { (1, 1) } else { rng.pick(&[(0usize, 1usize), (0, 1), (1, 4), (1, 4), (1, 1)]) };
-    let m: usize = match rng.below(6) {
+    let mut m: usize = match rng.below(6) {
         0 => 33, 1 => 65, 2 => 1024, 3 => 32 * rng.range(1, 32) as usize + 1, 4 => 32 * rng.range(1, 32) as usize,
         _ => rng.range(2, 1025) as usize,
     };
-    let span: usize = 65536 + rng.pick(&[0usize, 0, 0, 1, 2]) - rng.pick(&[0usize, 0, 1, 2]);
-    let tail: usize = rng.pick(&[0usize, 0, 40, 1100]);
+    let mut span: usize = 65536 + rng.pick(&[0usize, 0, 0, 1, 2]) - rng.pick(&[0usize, 0, 1, 2]);
+    let mut tail: usize = rng.pick(&[0usize, 0, 40, 1100]);
+    // the shards of one run cover the corner combinations systematically (shard id from the seed layout of ./check)
+    match sid % 8 {
+        0 => { span = 65536; m = 33; tail = 0; }
+        1 => { span = 65536; m = 32 * rng.range(1, 32) as usize + 1; tail = 0; }
+        2 => { span = 65535; m = 32 * rng.range(1, 32) as usize + 1; tail = 0; }
+        3 => { span = 65536 + rng.range(1, 3) as usize; tail = 1100; }
+        4 => { span = 65536; m = 1024; tail = 40; }
+        5 => { span = 65536; m = 32 * rng.range(1, 32) as usize + 1; tail = rng.pick(&[0usize, 40]); }
+        _ => {}
+    }
     let skip = rng.below(3);
     let mut found = 0;
     for b in 1..400usize {
@@ -1023,12 +1033,12 @@ fn gen_ef_edge(rng: &mut Rng, distinct: bool, out: &mut Out) -> Option<(usize, V
     None
 }
 
-fn kind_ef_large(rng: &mut Rng, out: &mut Out, id: &str, tier: &str, force_edge: bool) {
+fn kind_ef_large(rng: &mut Rng, out: &mut Out, id: &str, tier: &str, force_edge: bool, sid: u64) {
     // a 1024-block of the high bits spanning >= 65536 positions needs >= ~33k elements and one huge gap
     // (ones), or > 64512 duplicates in one bucket (zeros)
     out.case(id);
     let dup = !force_edge && tier == "thorough" && rng.chance(1, 4);
-    let edge = if !dup && (force_edge || rng.chance(2, 3)) { gen_ef_edge(rng, false, out) } else { None };
+    let edge = if !dup && (force_edge || rng.chance(2, 3)) { gen_ef_edge(rng, false, out, sid) } else { None };
     let mut n = if dup { rng.range(134_000, 140_000) } else { rng.range(33_000, 40_000) } as usize;
     let mut u = if dup { 2 * n + rng.below(1000) as usize } else { 16 * n + rng.below(1000) as usize };
     let mut xs: Vec<usize> = Vec::with_capacity(n);
@@ -1082,7 +1092,7 @@ fn kind_ef_large(rng: &mut Rng, out: &mut Out, id: &str, tier: &str, force_edge:
 }
 
 fn kind_efb(rng: &mut Rng, out: &mut Out, id: &str, tier: &str) {
-    if rng.chance(1, if (tier == "thorough" || tier == "deep") { 12 } else { 40 }) { return kind_ef_large(rng, out, id, tier, false); }
+    if rng.chance(1, if (tier == "thorough" || tier == "deep") { 12 } else { 40 }) { return kind_ef_large(rng, out, id, tier, false, 6); }
     out.case(id);
     let m = match rng.below(12) {
         0 => 0,
@@ -2174,9 +2184,57 @@ fn kind_bigvec(rng: &mut Rng, out: &mut Out, id: &str, _tier: &str) {
     out.end();
 }
 
+// kind 26: DArray exact-span sweep (deep / thorough searches): lead x ones-before-the-far-one x distance x view,
+// the combinations split over the shards of a run.  A block of `c` consecutive ones starting at `lead` and one
+// more at distance `d` from the first: the dense / sparse decision (d < 65536), the sub-block head (c % 32 == 0),
+// word alignment of the block start and of its end.
+fn kind_darray_sweep(out: &mut Out, sid: u64, id_prefix: &str) {
+    let mut combo = 0u64;
+    for &lead in &[1usize, 63, 64] {
+        for &c in &[1usize, 32, 33, 1023] {
+            for &d in &[65534usize, 65535, 65536, 65537] {
+                for &compl in &[false, true] {
+                    combo += 1;
+                    if combo % 8 != sid % 8 { continue; }
+                    let mut bits = vec![false; lead];
+                    bits.extend(std::iter::repeat(true).take(c));
+                    while bits.len() < lead + d { bits.push(false); }
+                    bits.push(true);
+                    bits.extend_from_slice(&[false, true, true, false]);
+                    if compl { bits.iter_mut().for_each(|x| *x = !*x); }
+                    let len = bits.len();
+                    out.case(&format!("{}l{}c{}d{}z{}", id_prefix, lead, c, d, compl as u8));
+                    out.data(&words_of(&bits));
+                    let built = guard(|| DArray::from_bits(bits.iter().cloned()).enable_select0());
+                    let x = match built {
+                        Some(x) => x,
+                        None => { out.op(1003, &[len, 0, 1], "P".into(), "DArray construction panicked"); out.end(); continue; }
+                    };
+                    out.op(1003, &[len, 0, 1], "K".into(), "DArray (exact-span sweep)");
+                    out.stat("da:exact-span-sweep");
+                    let cnt = c + 3;
+                    for &k in &[0usize, 1, c - 1, c, c + 1, c + 2, c + 3, 31, 32, 33, 1023, 1024] {
+                        if k > cnt { continue; }
+                        if compl { out.op(17, &[k], r_optnum(|| x.select0(k)), "select0"); }
+                        else { out.op(16, &[k], r_optnum(|| x.select1(k)), "select1"); }
+                    }
+                    // the other view: a few probes
+                    for &k in &[0usize, 1, 63, 64, 1023, 1024, 65000, len - cnt - 1, len - cnt] {
+                        if compl { out.op(16, &[k], r_optnum(|| x.select1(k)), "select1"); }
+                        else { out.op(17, &[k], r_optnum(|| x.select0(k)), "select0"); }
+                    }
+                    out.op(22, &[], r_num(|| x.num_ones()), "num_ones");
+                    out.op(98, &[], r_num(|| x.size_in_bytes()), "size_in_bytes");
+                    out.end();
+                }
+            }
+        }
+    }
+}
+
 // kind 24: PrefixSummedEliasFano whose prefix sums are an edge-span Elias-Fano input (see gen_ef_edge)
-fn kind_psef_edge(rng: &mut Rng, out: &mut Out, id: &str, _tier: &str) {
-    let (_, xs, hot) = match gen_ef_edge(rng, false, out) { Some(t) => t, None => return };
+fn kind_psef_edge(rng: &mut Rng, out: &mut Out, id: &str, _tier: &str, sid: u64) {
+    let (_, xs, hot) = match gen_ef_edge(rng, false, out, sid) { Some(t) => t, None => return };
     let n = xs.len();
     let mut vals: Vec<usize> = Vec::with_capacity(n);
     let mut prev = 0;
@@ -2200,8 +2258,8 @@ fn kind_psef_edge(rng: &mut Rng, out: &mut Out, id: &str, _tier: &str) {
 }
 
 // kind 25: SArray over a bit string whose set positions are an edge-span Elias-Fano input
-fn kind_sarray_edge(rng: &mut Rng, out: &mut Out, id: &str, _tier: &str) {
-    let (_, xs, hot) = match gen_ef_edge(rng, true, out) { Some(t) => t, None => return };
+fn kind_sarray_edge(rng: &mut Rng, out: &mut Out, id: &str, _tier: &str, sid: u64) {
+    let (_, xs, hot) = match gen_ef_edge(rng, true, out, sid) { Some(t) => t, None => return };
     let n = xs.len();
     let len = xs[n - 1] + 1;
     let mut bits = vec![false; len];
@@ -2269,6 +2327,8 @@ fn main() {
             continue;
         }
         let mut rng = Rng(seed.wrapping_mul(0x9E3779B97F4A7C15).wrapping_add(k as u64 * 1_000_003));
+        // ./check uses the seeds base*1000 + 100*build + i: a shard number 0..7 within one run
+        let sid = ((seed / 100) % 10) * 2 + (seed % 100) % 2;
         for i in 0..cases {
             let id = format!("k{}s{}c{}", k, seed, i);
             match k {
@@ -2287,9 +2347,10 @@ fn main() {
                 13 => kind_bigvec(&mut rng, &mut out, &id, tier),
                 // edge-span Elias-Fano inputs (>= 33k elements each): one case per shard
                 // (the list-based model needs 5..30 s to build one: deep / thorough searches only)
-                23 => if i == 0 && tier != "quick" { kind_ef_large(&mut rng, &mut out, &id, tier, true) },
-                24 => if i == 0 && tier != "quick" { kind_psef_edge(&mut rng, &mut out, &id, tier) },
-                25 => if i == 0 && tier != "quick" { kind_sarray_edge(&mut rng, &mut out, &id, tier) },
+                23 => if i == 0 && tier != "quick" { kind_ef_large(&mut rng, &mut out, &id, tier, true, sid) },
+                24 => if i == 0 && tier != "quick" { kind_psef_edge(&mut rng, &mut out, &id, tier, sid) },
+                26 => if i == 0 { kind_darray_sweep(&mut out, sid, &format!("k26s{}", seed)) },
+                25 => if i == 0 && tier != "quick" { kind_sarray_edge(&mut rng, &mut out, &id, tier, sid) },
                 14 => kind_wrappers(&mut rng, &mut out, &id, tier),
                 _ => panic!("unknown kind"),
             }
